@@ -45,7 +45,9 @@ def spell(field_codes, vmap, spelling):
     """field_codes: list over coordinates of the code of one field, or None (absent)."""
     if field_codes is None:
         return None
-    vals = [val(c, vmap) for c in field_codes]
+    # vmap: one value map for all coordinates, or a list with one map per coordinate
+    per_coord = bool(vmap) and isinstance(vmap[0], (list, tuple))
+    vals = [val(c, vmap[i] if per_coord else vmap) for i, c in enumerate(field_codes)]
     D = len(vals)
     if spelling == "row":          # (1, D) float array
         return np.array([vals], dtype=float)
@@ -108,6 +110,16 @@ def construct(defn, vmap, spelling):
             norm.append("x0_in_hard_bounds")
     if not (np.all(np.isfinite(plbo)) and np.all(np.isfinite(pubo))):
         norm.append("plausible_finite")
+    # the normalised problem in INTERNAL coordinates (what the optimiser works with): no NaN, same ordering
+    try:
+        li, ui = np.asarray(b.lower_bounds, float).ravel(), np.asarray(b.upper_bounds, float).ravel()
+        pli, pui = np.asarray(b.plausible_lower_bounds, float).ravel(), np.asarray(b.plausible_upper_bounds, float).ravel()
+        if np.any(np.isnan(li)) or np.any(np.isnan(ui)) or np.any(np.isnan(pli)) or np.any(np.isnan(pui)):
+            norm.append("internal_nan")
+        elif not (np.all(li <= pli) and np.all(pli < pui) and np.all(pui <= ui)):
+            norm.append("internal_ordered")
+    except Exception:
+        norm.append("internal_unreadable")
     out["norm_bad"] = norm
     out["x0"] = x0.tolist()
     return out
@@ -134,7 +146,8 @@ def judge(expected, out):
 def _work(job):
     defn, expected, reason, mapname, spelling = job
     try:
-        out = construct(defn, VALUE_MAPS[mapname], spelling)
+        vm = [VALUE_MAPS[m] for m in mapname.split("|")] if "|" in mapname else VALUE_MAPS[mapname]
+        out = construct(defn, vm, spelling)
     except Exception as e:     # harness failure
         return job, {"outcome": "HARNESS:" + repr(e)[:100], "calls": 0}, ["MACH.harness"]
     return job, out, judge(expected, out)
@@ -307,6 +320,19 @@ def run(verdict, tier):
                 defn = {f: (None if s1[f] == NONE else [s1[f], s2[f], s3[f]]) for f in ("x0", "lb", "ub", "plb", "pub")}
                 jobs.append((defn, vec_verdict([r1, r2, r3], defn), "+".join([r1, r2, r3]), "mixed", "row"))
                 n_prod += 1
+    # ---- mixed kinds of coordinates in one problem (per-coordinate value maps): a log-eligible coordinate (all four
+    # bounds positive, plausible range over decades) next to an unbounded / a bounded linear one, in every order
+    A = {"x0": 2, "lb": 0, "ub": 4, "plb": 1, "pub": 3}          # with map 'decades': 1e-3 | 0.1 .. 50 | 1e3, x0 = 1
+    U = {"x0": 2, "lb": NINF, "ub": PINF, "plb": 1, "pub": 3}    # with map 'mixed': unbounded, plausible -1 .. 2, x0 = 0.5
+    L = {"x0": 2, "lb": 0, "ub": 4, "plb": 1, "pub": 3}          # with map 'mixed': -3 | -1 .. 2 | 7, x0 = 0.5
+    for coords, maps in (((A, U), "decades|mixed"), ((U, A), "mixed|decades"), ((A, L), "decades|mixed"),
+                         ((A, U, L), "decades|mixed|mixed"), ((U, L, A), "mixed|mixed|decades"), ((A, A, U), "decades|decades|mixed")):
+        defn = {f: [c[f] for c in coords] for f in ("x0", "lb", "ub", "plb", "pub")}
+        for sp in ("row", "list", "flat"):
+            jobs.append((defn, "valid", "mixed_kinds", maps, sp))
+        defn2 = dict(defn)
+        defn2["x0"] = None
+        jobs.append((defn2, "valid", "mixed_kinds", maps, "row"))
     # ---- ulp-neighbour cells: numerically indistinguishable hard bounds ----------
     ulp_jobs = []
     for base in (1.0, -3.0, 0.0, 1e6, -1e-3, 123456.789):
